@@ -450,6 +450,9 @@ func normalParseTS(w *World, ru *Rule, m *parserModel) (*tsConfig, bool) {
 
 // underCommandMatch: block b is dominated by the true edge of `key == iterator.Value()` where key ranges over ChildCommands.
 func (m *parserModel) underCommandMatch(b *ssa.BasicBlock) bool {
+	if m.commandLookupAt(b) != nil {
+		return true
+	}
 	for _, f := range factsAt(b) {
 		if f.Op != token.EQL || f.Y == nil {
 			continue
@@ -848,4 +851,46 @@ func rC03Iterator(w *World, r *Report) {
 	} else {
 		ru.Undecided("anchor/Next", "-", "not found")
 	}
+}
+
+// commandLookupAt: block b is dominated by the success edge of `node, ok := cursor.ChildCommands[iterator.Value()]`
+// (the direct-lookup idiom of the command scan); returns the lookup.
+func (m *parserModel) commandLookupAt(b *ssa.BasicBlock) *ssa.Lookup {
+	for _, f := range factsAt(b) {
+		if f.Op != token.ILLEGAL || !f.Truth {
+			continue
+		}
+		ex, ok := f.X.(*ssa.Extract)
+		if !ok || ex.Index != 1 {
+			continue
+		}
+		lk, ok := ex.Tuple.(*ssa.Lookup)
+		if !ok || !lk.CommaOk {
+			continue
+		}
+		base, ok := loadOfField(lk.X, m.fChildCommands)
+		if !ok || !isTreePtr(base.Type()) {
+			continue
+		}
+		if c, ok := lk.Index.(*ssa.Call); ok && m.iterCall(c, nIterValue) {
+			return lk
+		}
+	}
+	return nil
+}
+
+// isCommandScan: the instruction starts the scan of the cursor's commands (range over ChildCommands, or a direct lookup by the current token).
+func (m *parserModel) isCommandScan(in ssa.Instruction) bool {
+	switch x := in.(type) {
+	case *ssa.Range:
+		_, ok := loadOfField(x.X, m.fChildCommands)
+		return ok
+	case *ssa.Lookup:
+		if _, ok := loadOfField(x.X, m.fChildCommands); ok {
+			if c, ok := x.Index.(*ssa.Call); ok && m.iterCall(c, nIterValue) {
+				return true
+			}
+		}
+	}
+	return false
 }
